@@ -42,6 +42,8 @@ type sharedInputs struct {
 	opts []decode.DecodeOption
 	// a table of gradient stops (legal, not sorted by offset) of which pipelines use overlapping windows
 	stops []generate.GradientStop
+	// one option VALUE (a full palette of colours that are not valid premultiplied colours) applied by many decodes
+	badPalOpt decode.DecodeOption
 }
 
 func loadShared() (*sharedInputs, error) {
@@ -62,6 +64,11 @@ func loadShared() (*sharedInputs, error) {
 	s.opts = make([]decode.DecodeOption, 2, 4)
 	s.opts[0] = decode.WithPalette(s.pal)
 	s.opts[1] = decode.WithColorAt(5, color.NRGBA{200, 100, 50, 128})
+	var badPal [64]color.RGBA
+	for i := range badPal {
+		badPal[i] = color.RGBA{uint8(200 + i%50), uint8(i), 0x90, uint8(i)} // R > A everywhere; some look like gradients
+	}
+	s.badPalOpt = decode.WithPalette(badPal)
 	s.stops = []generate.GradientStop{{Offset: 0.5, Color: color.RGBA{0xff, 0, 0, 0xff}}, {Offset: 0.25, Color: color.NRGBA{0, 0xff, 0, 0x80}},
 		{Offset: 0.75, Color: color.RGBA{0, 0, 0xff, 0xff}}, {Offset: 0.125, Color: color.Gray{0x80}}}
 	return s, nil
@@ -73,8 +80,8 @@ func (s *sharedInputs) hash() string {
 		h.Write(g)
 	}
 	fmt.Fprint(h, s.pal, s.pathData, s.stops, len(s.opts), cap(s.opts))
-	// every slot of the option list's backing array, fingerprinted by what the option does to a probe
-	for _, o := range s.opts[:cap(s.opts)] {
+	// every slot of the option list's backing array (and the shared option value), fingerprinted by what the option does to a probe
+	for _, o := range append(append([]decode.DecodeOption{}, s.opts[:cap(s.opts)]...), s.badPalOpt) {
 		m := ivg.Metadata{ViewBox: ivg.ViewBox{MinX: 1, MinY: 2, MaxX: 3, MaxY: 4}}
 		for i := range m.Palette {
 			m.Palette[i] = color.RGBA{uint8(200 + i%50), uint8(i), 7, uint8(4 * i)} // mostly not premultiplied
@@ -183,6 +190,15 @@ func allPipelines(s *sharedInputs) []pipeline {
 				return append(hashCalls(rec.Calls[:1]), fmt.Sprint(len(rec.Calls), err)...)
 			}})
 		}
+	}
+	for gi := 0; gi < 3; gi++ {
+		gi := gi
+		ps = append(ps, pipeline{fmt.Sprintf("decode-shared-option-value/%d", gi), func(s *sharedInputs, gate func()) []byte {
+			rec := &Recorder{}
+			gate()
+			err := decode.Decode(newGated(rec, gate), s.graphics[gi], s.badPalOpt)
+			return append(hashCalls(rec.Calls[:1]), fmt.Sprint(len(rec.Calls), err)...)
+		}})
 	}
 	for k := 2; k <= 4; k++ {
 		k := k
@@ -389,6 +405,10 @@ func runC18(args []string) error {
 					p := &ps[r.Intn(len(ps))]
 					if g%4 == 0 { // some workers hammer the gradient / encoder-reuse pipelines
 						p = byName[[]string{"gradient-pixels", "generator-encoder", "encoder-reuse/6", "decode-renderer/6"}[r.Intn(4)]]
+					}
+					if g%4 == 1 { // ... and some the pipelines that share option values, option lists and stop tables
+						p = byName[[]string{"decode-shared-option-value/0", "decode-shared-option-value/1", "decode-shared-option-value/2",
+							"decode-shared-opts/1/0", "decode-shared-opts/2/1", "generator-shared-stops/3", "generator-shared-stops/4"}[r.Intn(7)]]
 					}
 					out := p.run(s, runtime.Gosched)
 					mu.Lock()
